@@ -238,6 +238,10 @@ func (fx *FX) callFunction(st *State, v ssa.Value, callee *ssa.Function, c *ssa.
 		return m.Apply(fx, st, &CallCtx{V: v, C: c, Pos: pos, Args: args, Callee: callee})
 	}
 	if fx.u.internal(callee) {
+		if callee.Name() == "writeError" {
+			// an error response is an error text: no secret-derived argument may flow into it
+			fx.errorText(st, &CallCtx{V: v, C: c, Pos: pos, Args: args, Callee: callee})
+		}
 		fc := fx.u.contractOf(callee)
 		var env T = num(0)
 		if f, ok := fval.(VFunc); ok {
@@ -313,8 +317,18 @@ func (fx *FX) callContract(st *State, v ssa.Value, callee *ssa.Function, fc *Fun
 	}
 	// the callee's functional clauses hold on its domain only
 	calleeDomain := tTrue
+	calleeDomainFor := map[string]T{}
 	for _, dcl := range fc.Domain {
-		calleeDomain = and(calleeDomain, fx.hypBool(env, dcl.E))
+		t := fx.hypBool(env, dcl.E)
+		if dcl.Label == "" {
+			calleeDomain = and(calleeDomain, t)
+		} else {
+			old, ok := calleeDomainFor[dcl.Label]
+			if !ok {
+				old = tTrue
+			}
+			calleeDomainFor[dcl.Label] = and(old, t)
+		}
 	}
 	calleeDomain = fx.def("calleedomain", calleeDomain)
 	// modifies: havoc the named objects (the caller must itself be allowed to write them)
@@ -362,7 +376,11 @@ func (fx *FX) callContract(st *State, v ssa.Value, callee *ssa.Function, fc *Fun
 		post.bound["result"] = res
 	}
 	for _, e := range fc.Ensures {
-		fx.assume(and(g, calleeDomain), fx.hypBool(post, e.E))
+		gd := and(g, calleeDomain)
+		if d, ok := calleeDomainFor[e.Label]; ok {
+			gd = and(gd, d)
+		}
+		fx.assume(gd, fx.hypBool(post, e.E))
 	}
 	return res
 }
@@ -412,6 +430,23 @@ func (ce *calleeEnv) env(fx *FX, st *State) *Env {
 // dynamic calls
 
 func (fx *FX) callDynamic(st *State, v ssa.Value, fv VFunc, c *ssa.CallCommon, pos token.Pos, args []Val) Val {
+	if id, ok := isLit(fv.Id); ok && id == -1 {
+		// a function value produced by an external package (e.g. the swagger handler): nothing is known
+		// about it; every object reachable through a pointer argument is havocked
+		fx.note("call of a function value created by an external package: its effects on pointer arguments are unconstrained")
+		for i, a := range args {
+			if p, ok := a.(VPtr); ok {
+				var root ssa.Value
+				if i < len(c.Args) {
+					root = rootOf(c.Args[i])
+				}
+				fx.writeCheck(st, p.Ref, root, pos, "external function value may write its argument")
+				st.H = fx.def("H", sto(st.H, p.Ref, fx.fresh("extobj", SIArr)))
+				st.Hs = fx.def("Hs", sto(st.Hs, p.Ref, fx.fresh("extsobj", SSArr)))
+			}
+		}
+		return fx.havocResult(c, "extfn")
+	}
 	sig := c.Signature()
 	cands := fx.u.funcCandidates(sig)
 	// function-typed parameter declared pure: deterministic uninterpreted result
